@@ -291,6 +291,7 @@ func cmdCheck(args []string) int {
 	prop := fs.String("prop", "", "property id")
 	tier := fs.String("tier", "quick", "quick|thorough")
 	workers := fs.Int("j", runtime.NumCPU(), "workers")
+	only := fs.String("only", "", "development: run only the harnesses whose name starts with this (no evidence file is written)")
 	fs.Parse(args)
 	if t := os.Getenv("VERIF_TIER"); t != "" && !isFlagSet(fs, "tier") {
 		*tier = t
@@ -370,6 +371,15 @@ func cmdCheck(args []string) int {
 			h2.MaxPaths = 0
 			specs = append(specs, h2)
 		}
+	}
+	if *only != "" {
+		var sel []HarnessSpec
+		for _, hs := range specs {
+			if strings.HasPrefix(hs.Name, *only) {
+				sel = append(sel, hs)
+			}
+		}
+		specs = sel
 	}
 	var runs []*HarnessRun
 	quiet := len(specs) > 40
@@ -593,7 +603,9 @@ func cmdCheck(args []string) int {
 	// ---- evidence
 	ev := buildEvidence(*prop, *tier, seed, pc, runs, engines, samples, validated, mismatches, knownMatched, unreproduced, violations, time.Since(t0), loadT)
 	ev.doc["coverage"].(map[string]interface{})["solver_crosscheck"] = map[string]int{"queries_replayed_through_z3_4.8.12_z3_5.1_cvc5": xq, "disagreements": xdis}
-	if err := writeEvidence(*prop, ev); err != nil {
+	if *only != "" {
+		fmt.Println("  (-only: partial run, evidence file left untouched)")
+	} else if err := writeEvidence(*prop, ev); err != nil {
 		fmt.Println("cannot write evidence:", err)
 		return 2
 	}
